@@ -27,6 +27,7 @@ class NetSim:
         self.ev = []
         self.projs, self._pidx = [], {}
         self.jobs = []
+        self.scripts = {}
         self.turn = 0
         self.stop = False
         self.results = []
@@ -92,6 +93,35 @@ class NetSim:
             return r.get("fate", "P")
         return "D"
 
+    def snapshot(self):
+        master = next((o for o in self.objs.values() if hasattr(o, "dhcp_dict") and o.node_id == 0), None)
+        table = sorted([int(k), int(v)] for k, v in master.dhcp_dict.items()) if master is not None else []
+        addrs = [[nm, getattr(o, "node_id", -1), o.node_address] for nm, o in self.objs.items()]
+        return table, addrs
+
+    def mesh_call(self, name, op, fn, arg=0, timeout_ms=0):
+        """run one mesh API call on node `name`, record it with snapshots of the master's table and all node addresses"""
+        o = self.objs[name]
+        t0 = self.s.now
+        tb, _ = self.snapshot()
+        wasconn = o.node_address != 0o4444
+        _, a0 = self.snapshot()
+        addr0 = o.node_address
+        exc, r = "none", None
+        try:
+            r = fn(o)
+        except sim.WatchdogExpired:
+            raise
+        except Exception as e:  # noqa
+            exc = type(e).__name__
+        table, addrs = self.snapshot()
+        res = -999 if r is None else (int(r) if not isinstance(r, bool) else (1 if r else 0))
+        self.ev.append(dict(k="mesh", op=op, n=name, id=getattr(o, "node_id", -1), arg=arg, res=res, isbool=isinstance(r, bool),
+                            exc=exc, t0=t0 // 1000, t=self.s.now // 1000, timeout_ms=timeout_ms, table_before=tb, table=table, wasconn=wasconn, addrs_before=a0, addr_before=addr0,
+                            addrs=addrs, proj=self.proj(self.chips[name]), addr=o.node_address, lvl=o.multicast_level))
+        self.drain(name)
+        return r
+
     def drain(self, name, force=False):
         if self.lazy_drain and not force:
             return
@@ -124,6 +154,25 @@ class NetSim:
             while not self.stop:
                 if chip.rx:
                     self.update(name)
+                sc = self.scripts.get(name)
+                if sc and s.now >= sc[0][0]:
+                    _, fn = sc.pop(0)
+                    me.deadline = s.now + 30_000_000_000
+                    try:
+                        fn(self, name)
+                    except sim.WatchdogExpired:
+                        self.ev.append(dict(k="hang", n=name, job=-1, t=s.now // 1000))
+                        self.stop = True
+                        s.abort = True
+                        return
+                    me.deadline = None
+                    self.last_activity = s.now
+                    continue
+                if any(self.scripts.values()):
+                    if not chip.rx:
+                        nxt = sc[0][0] if sc else s.now + 20_000_000
+                        s.park(lambda: bool(chip.rx) or self.stop, max(s.now + 1000, min(nxt, s.now + 20_000_000)))
+                    continue
                 if self.turn < len(self.jobs) and self.jobs[self.turn]["n"] == name and self._quiescent(name):
                     job = self.jobs[self.turn]
                     if self.lazy_drain:      # everything the previous job delivered is read now, at quiescence
@@ -168,8 +217,9 @@ class NetSim:
         last = max([self.last_activity] + [p["t"] * 1000 for p in self.air.log[-1:]])
         return s.now - last >= self.gap
 
-    def run(self, jobs, real_timeout=None):
+    def run(self, jobs, real_timeout=None, scripts=None):
         self.jobs = jobs
+        self.scripts = {k: sorted(v, key=lambda x: x[0]) for k, v in (scripts or {}).items()}
         for name in self.objs:
             self.s.spawn(self._loop(name), name)
         errs = self.s.run()
@@ -195,8 +245,8 @@ class NetSim:
                 cur = dict(call=e, ret=dict(exc="missing", res=False, t=0, dt=0, proj=1, addr=0, lvl=0, n=e["n"], api=e["api"]),
                            rets=[], deqs=[], pkts=[], bad=[])
                 wins.append(cur)
-            elif cur is None:
-                continue            # start-up traffic before the first job (none expected)
+            elif cur is None or e["k"] == "mesh":
+                continue            # (mesh events are judged from their own list)
             elif e["k"] == "ret":
                 cur["rets"].append(e)
                 if e.get("job") == cur["call"]["job"] and e["api"] == cur["call"]["api"]:
@@ -207,7 +257,8 @@ class NetSim:
                 cur["pkts"].append(e)
             else:
                 cur["bad"].append(dict(k=e["k"], n=e.get("n", ""), what=str(e.get("exc", e.get("job", "")))))
-        return dict(nodes=nodes, prefix=PREFIX, suffix=SUFFIX, projs=self.projs, wins=wins)
+        return dict(nodes=nodes, prefix=PREFIX, suffix=SUFFIX, projs=self.projs, wins=wins,
+                    mesh=[e for e in ev if e["k"] == "mesh"], crashes=[e for e in ev if e["k"] in ("crash", "hang")])
 
 
 # ---- job helpers -------------------------------------------------------------------------------------------------
@@ -273,6 +324,36 @@ def job_call(src_name, api, fn_body, **kw):
             exc = type(e).__name__
         rr = r if isinstance(r, (int, bool)) else (-999 if r is None else 1)
         ns.rec_ret(name, api, exc, res=int(rr) if not isinstance(rr, bool) else rr, job=ns.turn, dt=(ns.s.now - t0) // 1000)
+    d = dict(n=src_name, fn=fn)
+    d.update(kw)
+    return d
+
+
+def job_mesh_send(src_name, to_id, mtype, msg, **kw):
+    def fn(ns, name, job):
+        o = ns.objs[name]
+        t0 = ns.s.now
+        table, addrs = ns.snapshot()
+        ns.ev.append(dict(k="call", n=name, api="mesh_send", to=to_id, type=mtype, id=0, msg=list(msg), t=t0 // 1000, job=ns.turn,
+                          src=o.node_address, chk=list(job.get("chk", ["C17", "C07"])), level=-1, lvl=o.multicast_level,
+                          tx_timeout=o.tx_timeout, route_timeout=o.route_timeout, table=table, addrs=addrs))
+        exc, r = "none", False
+        try:
+            r = o.send(to_id, mtype, msg)
+        except sim.WatchdogExpired:
+            raise
+        except Exception as e:  # noqa
+            exc = type(e).__name__
+        ns.rec_ret(name, "mesh_send", exc, res=bool(r), job=ns.turn, dt=(ns.s.now - t0) // 1000)
+    d = dict(n=src_name, fn=fn)
+    d.update(kw)
+    return d
+
+
+def job_mesh(src_name, op, fn_body, arg=0, timeout_ms=0, **kw):
+    """sequential mesh API call (lookup / release / check_connection / renew) recorded as a mesh event"""
+    def fn(ns, name, job):
+        ns.mesh_call(name, op, fn_body, arg=arg, timeout_ms=timeout_ms)
     d = dict(n=src_name, fn=fn)
     d.update(kw)
     return d
